@@ -15,17 +15,74 @@ import (
 type SolverCfg struct {
 	Name string
 	Cmd  []string // file name appended
+	Pat  bool     // runs on the variant of the query in which user-level quantifiers carry the engine's element-read triggers
 }
 
 func solverCfgs(timeoutS int) []SolverCfg {
 	ms := fmt.Sprint(timeoutS * 1000)
 	return []SolverCfg{
-		{"z3-5.1.0", []string{"z3-new", "-T:" + fmt.Sprint(timeoutS), "-t:" + ms}},
-		{"z3-4.8.12", []string{"/usr/bin/z3", "-T:" + fmt.Sprint(timeoutS), "-t:" + ms}},
-		{"cvc5-1.0", []string{"cvc5", "--lang=smt2", "--tlimit=" + ms}},
-		{"cvc5-1.0(enum-inst)", []string{"cvc5", "--lang=smt2", "--enum-inst", "--tlimit=" + ms}},
-		{"z3-5.1.0(arith2)", []string{"z3-new", "-T:" + fmt.Sprint(timeoutS), "-t:" + ms, "smt.arith.solver=2"}},
+		{"z3-5.1.0", []string{"z3-new", "-T:" + fmt.Sprint(timeoutS), "-t:" + ms}, false},
+		{"z3-4.8.12", []string{"/usr/bin/z3", "-T:" + fmt.Sprint(timeoutS), "-t:" + ms}, false},
+		{"cvc5-1.0", []string{"cvc5", "--lang=smt2", "--tlimit=" + ms}, false},
+		{"cvc5-1.0(enum-inst)", []string{"cvc5", "--lang=smt2", "--enum-inst", "--tlimit=" + ms}, false},
+		{"z3-5.1.0(arith2)", []string{"z3-new", "-T:" + fmt.Sprint(timeoutS), "-t:" + ms, "smt.arith.solver=2"}, false},
+		{"cvc5-1.0(triggers)", []string{"cvc5", "--lang=smt2", "--tlimit=" + ms}, true},
+		{"z3-5.1.0(triggers)", []string{"z3-new", "-T:" + fmt.Sprint(timeoutS), "-t:" + ms}, true},
 	}
+}
+
+// Quantifiers produced from contracts carry a candidate trigger as "(! body :autopattern (t1 t2))".  The plain variant of
+// a query drops it (the solvers infer their own triggers); the trigger variant turns it into :pattern. Restricting
+// instantiation can only lose proofs, never create them, so an "unsat" from either variant stands.
+func plainSMT(q string) string { return rewriteAuto(q, false) }
+func patSMT(q string) string   { return rewriteAuto(q, true) }
+
+func rewriteAuto(q string, keep bool) string {
+	const mark = " :autopattern "
+	if !strings.Contains(q, mark) {
+		return q
+	}
+	if keep {
+		return strings.ReplaceAll(q, mark, " :pattern ")
+	}
+	var b strings.Builder
+	for {
+		i := strings.Index(q, mark)
+		if i < 0 {
+			b.WriteString(q)
+			break
+		}
+		// the annotation "(! body :autopattern (..))": find the opening "(! " that encloses position i
+		depth := 0
+		open := -1
+		for j := i - 1; j >= 0; j-- {
+			switch q[j] {
+			case ')':
+				depth++
+			case '(':
+				if depth == 0 {
+					open = j
+				} else {
+					depth--
+				}
+			}
+			if open >= 0 {
+				break
+			}
+		}
+		// the pattern list after the mark
+		k := i + len(mark)
+		end := matchParen(q, k)
+		if open < 0 || end < 0 || !strings.HasPrefix(q[open:], "(! ") {
+			b.WriteString(q[:i+len(mark)])
+			q = q[i+len(mark):]
+			continue
+		}
+		b.WriteString(q[:open])
+		b.WriteString(q[open+3 : i])
+		q = q[end+2:] // skip the pattern list and the ")" closing the annotation
+	}
+	return b.String()
 }
 
 var cpuSem = make(chan struct{}, 16)
@@ -126,7 +183,7 @@ func batchFirst(fr *FuncResult, dir string, perQueryMs int) {
 		fmt.Fprintf(&b, "(push)\n(assert (not %s))\n(check-sat)\n(pop)\n", Imp(o.Guard, o.Goal))
 	}
 	file := filepath.Join(dir, safeFile(fr.Key)+".batch.smt2")
-	os.WriteFile(file, []byte(b.String()), 0o644)
+	os.WriteFile(file, []byte(plainSMT(b.String())), 0o644)
 	cpuSem <- struct{}{}
 	ctx, cancel := context.WithTimeout(context.Background(), time.Duration(perQueryMs*len(fr.Obls)+5000)*time.Millisecond)
 	defer cancel()
@@ -180,9 +237,16 @@ func safeFile(s string) string {
 
 // raceOne decides one obligation by racing the three solvers.
 func raceOne(fr *FuncResult, o *Obligation, dir string, timeoutS int, keepDir string) {
-	q := queryText(fr, o, false)
+	q0 := queryText(fr, o, false)
+	q := plainSMT(q0)
 	file := filepath.Join(dir, safeFile(fr.Key+"__"+o.Name)+".smt2")
 	os.WriteFile(file, []byte(q), 0o644)
+	filePat := ""
+	if qp := patSMT(q0); qp != q {
+		filePat = file + ".pat.smt2"
+		os.WriteFile(filePat, []byte(qp), 0o644)
+		defer os.Remove(filePat)
+	}
 	type ans struct {
 		cfg  SolverCfg
 		res  string
@@ -191,12 +255,24 @@ func raceOne(fr *FuncResult, o *Obligation, dir string, timeoutS int, keepDir st
 	}
 	cfgs := solverCfgs(timeoutS)
 	// finite model finding for counterexamples of quantified goals
-	cfgs = append(cfgs, SolverCfg{"cvc5-fmf", []string{"cvc5", "--lang=smt2", "--finite-model-find", "--tlimit=" + fmt.Sprint(timeoutS*1000)}})
+	cfgs = append(cfgs, SolverCfg{"cvc5-fmf", []string{"cvc5", "--lang=smt2", "--finite-model-find", "--tlimit=" + fmt.Sprint(timeoutS*1000)}, false})
 	ctx, cancel := context.WithCancel(context.Background())
 	ch := make(chan ans, len(cfgs))
+	var active []SolverCfg
+	for _, c := range cfgs {
+		if c.Pat && filePat == "" {
+			continue
+		}
+		active = append(active, c)
+	}
+	cfgs = active
 	for _, c := range cfgs {
 		go func(c SolverCfg) {
-			r, t, dt := runSolver(ctx, c, file, timeoutS)
+			f := file
+			if c.Pat {
+				f = filePat
+			}
+			r, t, dt := runSolver(ctx, c, f, timeoutS)
 			ch <- ans{c, r, t, dt}
 		}(c)
 	}
@@ -212,7 +288,7 @@ func raceOne(fr *FuncResult, o *Obligation, dir string, timeoutS int, keepDir st
 			o.Verdict, o.Solver, o.Seconds = "proved", a.cfg.Name, a.dt
 			decided = true
 			cancel()
-		} else if a.res == "sat" {
+		} else if a.res == "sat" && !a.cfg.Pat {
 			o.Verdict, o.Solver, o.Seconds = "refuted", a.cfg.Name, a.dt
 			decided = true
 			cancel()
@@ -225,7 +301,7 @@ func raceOne(fr *FuncResult, o *Obligation, dir string, timeoutS int, keepDir st
 		// candidate counterexample from the quantifier-free relaxation (must be confirmed by replay on the real code)
 		rq := relaxedQuery(fr, o)
 		rfile := file + ".relaxed.smt2"
-		os.WriteFile(rfile, []byte(rq), 0o644)
+		os.WriteFile(rfile, []byte(plainSMT(rq)), 0o644)
 		ctx3, cancel3 := context.WithCancel(context.Background())
 		r, text, dt := runSolver(ctx3, solverCfgs(timeoutS)[0], rfile, timeoutS)
 		cancel3()
@@ -238,7 +314,7 @@ func raceOne(fr *FuncResult, o *Obligation, dir string, timeoutS int, keepDir st
 		// get a model with z3-new (best model printer); fall back to cvc5
 		mq := "(set-option :produce-models true)\n" + queryText(fr, o, true)[len("(set-option :produce-models true)\n"):]
 		mfile := file + ".model.smt2"
-		os.WriteFile(mfile, []byte(mq), 0o644)
+		os.WriteFile(mfile, []byte(plainSMT(mq)), 0o644)
 		ctx2, cancel2 := context.WithCancel(context.Background())
 		r, text, _ := runSolver(ctx2, solverCfgs(timeoutS)[0], mfile, timeoutS)
 		if r != "sat" {
